@@ -1072,6 +1072,8 @@ for _p in ("C05", "C06", "C10", "C11", "C12", "C13", "C14", "C15", "C16", "C17",
     ADDENDA[_p] = ADDENDA.get(_p, "") + " The guard condition (no user exception escapes a handler of an operator) is checked inside this property as well."
 for _p in ("C20", "C21", "C22", "C23"):
     ADDENDA[_p] = ADDENDA.get(_p, "") + " At every call-out to an observer the observer may dispose the subject from inside its callback."
+for _p in ("C20", "C21", "C23"):
+    ADDENDA[_p] = ADDENDA.get(_p, "") + " A subscriber may bring a scheduler along (subscribe with a scheduler argument): the subject does not use it."
 for _p, _t in ADDENDA.items():
     if _p in CHECKS:
         CHECKS[_p] = dict(CHECKS[_p], text=CHECKS[_p]["text"] + _t)
